@@ -32,6 +32,8 @@ def main(argv: list[str] | None = None) -> int:
 
 
 if __name__ == "__main__":
+    import signal
+    signal.signal(signal.SIGPIPE, signal.SIG_DFL)
     rc = main()
     sys.stdout.flush()
     os._exit(rc)
